@@ -65,6 +65,9 @@ class C12(E1Check):
                     progs.append({"depth": depth, "noise": True, "tasks": [{"spawn": spawn, "script": sc}]})
                 for sc in allsc[1::4] if tier == "quick" else allsc[1::2]:
                     progs.append({"depth": depth, "falsy": True, "tasks": [{"spawn": spawn, "script": sc}]})
+            for sc in allsc[2::3] if tier == "quick" else allsc:
+                for spawn in ("tg", "service"):
+                    progs.append({"depth": depth, "precreate": True, "tasks": [{"spawn": spawn, "script": sc}]})
             for sc in allsc[::3] if tier == "quick" else allsc:
                 progs.append({"depth": depth, "tasks": [{"spawn": "tg-outlive", "script": sc}]})
                 if depth == 1:
@@ -155,6 +158,13 @@ class C12(E1Check):
                 return "NoCurrentContext"
             return names.get(id(c), f"<{type(c).__name__}>")
 
+        noise_n = [0]
+        st_pre: dict[int, list] = {}
+        st_pre_parent: dict[int, Any] = {}
+
+        def count_nodes(sc: list) -> int:
+            return sum(1 + count_nodes(ch) for _m, ch in sc)
+
         def failing_sync() -> Any:
             raise HE("sync factory fails")
 
@@ -193,6 +203,20 @@ class C12(E1Check):
                 except Exception as e:  # noqa: BLE001
                     log("noise-other", t, path, who, type(e).__name__)
                 check(t, stack, f"inside {path} after a failed async-factory lookup through the {who} context")
+            # a service task that fails before it reports started(), started on the current and on the context below
+            async def bad_service(*, task_status: Any) -> None:
+                raise HE("service fails while starting")
+
+            for who, target in (("current", cur()), ("below", below)):
+                if target is None or not hasattr(target, "start_service_task"):
+                    continue
+                noise_n[0] += 1
+                try:
+                    await target.start_service_task(bad_service, f"bad{noise_n[0]}")
+                except BaseException as e:  # noqa: BLE001
+                    if not (isinstance(e, HE) or (isinstance(e, BaseExceptionGroup) and e.subgroup(HE) is not None)):
+                        log("noise-other", t, path, who, type(e).__name__)
+                check(t, stack, f"inside {path} after a service task failed to start on the {who} context")
             n = Context()
             if n.parent is not ctx:
                 fails.append(("parent", f"task {t}: Context() created inside {path} after failed lookups has parent {_d(n.parent)}, expected {_d(ctx)}"))
@@ -201,7 +225,13 @@ class C12(E1Check):
             mode, children = node
             await env.gate(f"t{t}.{path}.enter")
             check(t, stack, f"before entering {path}")
-            ctx = Ctx(cur()) if program.get("explicit") and cur() is not None else Ctx()
+            pre = program.get("precreate") and st_pre.get(t)
+            if pre:
+                # the context object was created up front (when the task's bottom context was current) and is only ENTERED here
+                ctx = pre.pop(0)
+                new_parent = st_pre_parent[t]
+            else:
+                ctx = Ctx(cur()) if program.get("explicit") and cur() is not None else Ctx()
             names[id(ctx)] = f"t{t}:{path}"
             if ctx.parent is not new_parent:
                 fails.append(("parent", f"task {t}: Context() created at {path} has parent {_d(ctx.parent)}, expected {_d(new_parent)}"))
@@ -273,6 +303,9 @@ class C12(E1Check):
                         log("noise-other", t, "bottom", api, type(e).__name__)
                     check(t, stack, f"at the bottom after a failed {api}-factory lookup")
             new_parent = outer[-1] if spec["spawn"] == "component" else bottom
+            if program.get("precreate"):
+                st_pre[t] = [Ctx() for _ in range(count_nodes(spec["script"]))]
+                st_pre_parent[t] = new_parent
             for k, node in enumerate(spec["script"]):
                 await run_block(t, stack, node, str(k), new_parent)
             await env.gate(f"t{t}.end")
